@@ -27,9 +27,9 @@ static void  fn_visit(void *e) { cb_record(e); }
 static int   cmp_mod10_val(const void *a, const void *b) { return (int)(VAL(a) % 10) - (int)(VAL(b) % 10); }
 /* qsort comparators get pointers to the slots */
 static int   cmp_num(const void *a, const void *b) {
-    unsigned long long x = VAL(*(void *const *)a), y = VAL(*(void *const *)b); return x < y ? -1 : x > y; }
+    unsigned long long x = VAL(*(void *const *)a), y = VAL(*(void *const *)b); return verif_mag(x < y ? -1 : x > y); }
 static int   cmp_mod10(const void *a, const void *b) {
-    unsigned long long x = VAL(*(void *const *)a) % 10, y = VAL(*(void *const *)b) % 10; return x < y ? -1 : x > y; }
+    unsigned long long x = VAL(*(void *const *)a) % 10, y = VAL(*(void *const *)b) % 10; return verif_mag(x < y ? -1 : x > y); }
 /* reduce: accumulator r = (3a + b) mod 1000003, operands logged */
 static unsigned long long red_acc;
 static unsigned long long red_val(void *p) { return p == (void *)&red_acc ? red_acc : VAL(p); }
